@@ -461,6 +461,131 @@ theorem run_good (hw : ObsWriter wr obs) (hg : GoodWriter wr good) (cfg : Cfg)
     rw [List.append_nil] at h1 h2
     exact ⟨by rw [ho, h1], fun B hB => absurd hB (h2 B)⟩
 
+theorem dead_emit_writer (cfg : Cfg) (f : Bool) (st : PSt ω) :
+    (emitBlock wr cfg f st).2.codec.w = st.codec.w ∨
+      ∃ b, (emitBlock wr cfg f st).2.codec = (Codec.encode wr cfg.pieces st.codec b).2 := by
+  unfold emitBlock
+  simp only
+  split
+  · exact Or.inl rfl
+  · split
+    · exact Or.inl rfl
+    · rename_i b _
+      split
+      · exact Or.inl rfl
+      · right
+        refine ⟨b, ?_⟩
+        cases he : Codec.encode wr cfg.pieces st.codec b with
+        | mk ok c' => cases ok <;> rfl
+
+/-- whatever the packet machine does, the writer under it stays good -/
+theorem emit_keeps_good (hg : GoodWriter wr good) (cfg : Cfg) (f : Bool) (st : PSt ω) (h : good st.codec.w) :
+    good (emitBlock wr cfg f st).2.codec.w := by
+  rcases dead_emit_writer wr cfg f st with h1 | ⟨b, h1⟩
+  · rw [h1]; exact h
+  · rw [h1]
+    unfold Codec.encode
+    by_cases hf : st.codec.failed = true
+    · simp only [hf, if_true]; exact h
+    · simp only [hf, Bool.false_eq_true, if_false]
+      exact (writePieces_good wr good hg (cfg.pieces b) st.codec.w h).2
+
+theorem writeLoop_keeps_good (hg : GoodWriter wr good) (cfg : Cfg) (len : Nat) : ∀ (fuel : Nat) (st : PSt ω),
+    good st.codec.w → good (writeLoop wr cfg len fuel st).2.2.codec.w := by
+  intro fuel
+  induction fuel with
+  | zero => intro st h; exact h
+  | succ fuel ih =>
+    intro st h
+    unfold writeLoop
+    by_cases hgt : st.buf.length > cfg.bs
+    · rw [if_pos hgt]
+      have h1 := emit_keeps_good wr good hg cfg false st h
+      cases he : emitBlock wr cfg false st with
+      | mk r st' =>
+        rw [he] at h1
+        cases r with
+        | none => exact ih st' h1
+        | some e =>
+          simp only
+          by_cases hh : cfg.hasErr = true
+          · simp only [hh, if_true]; exact h1
+          · simp only [hh, Bool.false_eq_true, if_false]; exact h1
+    · rw [if_neg hgt]; exact h
+
+theorem write_keeps_good (hg : GoodWriter wr good) (cfg : Cfg) (st : PSt ω) (p : Bytes) (h : good st.codec.w) :
+    good (st.write wr cfg p).2.2.codec.w := by
+  unfold PSt.write
+  cases he : (if cfg.hasErr then st.err else none) with
+  | some e => exact h
+  | none => exact writeLoop_keeps_good wr good hg cfg p.length _ { st with buf := st.buf ++ p } h
+
+theorem writes_keep_good (hg : GoodWriter wr good) (cfg : Cfg) : ∀ (ps : List Bytes) (st : PSt ω),
+    good st.codec.w → good (PSt.writes wr cfg st ps).2.codec.w := by
+  intro ps
+  induction ps with
+  | nil => intro st h; exact h
+  | cons p ps ih =>
+    intro st h
+    unfold PSt.writes
+    exact ih _ (write_keeps_good wr good hg cfg st p h)
+
+theorem close_keeps_good (hg : GoodWriter wr good) (cfg : Cfg) (st : PSt ω) (h : good st.codec.w) :
+    good (st.close wr cfg).2.codec.w := by
+  unfold PSt.close
+  by_cases hv : cfg.v1shape = true
+  · simp only [hv, if_true]
+    by_cases hgt : st.buf.length > 0
+    · simp only [hgt, if_true]
+      have h1 := emit_keeps_good wr good hg cfg false st h
+      cases he : emitBlock wr cfg false st with
+      | mk r st' =>
+        rw [he] at h1
+        cases r with
+        | some e => exact h1
+        | none =>
+          simp only
+          by_cases hg2 : st'.buf.length > 0
+          · rw [if_pos hg2]; exact h1
+          · rw [if_neg hg2]; exact emit_keeps_good wr good hg cfg true st' h1
+    · simp only [hgt, if_false]
+      exact emit_keeps_good wr good hg cfg true st h
+  · simp only [hv, Bool.false_eq_true, if_false]
+    exact emit_keeps_good wr good hg cfg true st h
+
+theorem init_keeps_good (hg : GoodWriter wr good) (pieces : Bytes → List Bytes) (w0 : ω) (hbytes : Bytes)
+    (h : good w0) : good (PSt.init wr pieces w0 hbytes).2.codec.w := by
+  unfold PSt.init Codec.encode
+  simp only [Bool.false_eq_true, if_false]
+  exact (writePieces_good wr good hg (pieces (headerPacket hbytes)) w0 h).2
+
+/-- `run_good` with the converse (`Close` reports success ONLY IF the
+    all-at-once form exists) and the writer's invariant at the end -/
+theorem run_good_full (hw : ObsWriter wr obs) (hg : GoodWriter wr good) (cfg : Cfg)
+    (hp : ∀ b, (cfg.pieces b).flatten = b) (hb : 0 < cfg.bs) (hif : IndexFail cfg.pkt) (v : Version)
+    (hv : cfg.v1shape = (v == v1)) (w0 : ω) (hw0 : good w0) (hbytes : Bytes) (ws : List Bytes) :
+    (PSt.init wr cfg.pieces w0 hbytes).1 = true ∧
+    obs ((PSt.writes wr cfg (PSt.init wr cfg.pieces w0 hbytes).2 ws).2.close wr cfg).2.codec.w =
+      obs w0 ++ headerPacket hbytes ++ planOkBytes cfg.pkt (Encrypt.chunkPlan v cfg.bs ws.flatten) 0 ∧
+    (∀ B, planBytes cfg.pkt (Encrypt.chunkPlan v cfg.bs ws.flatten) 0 = .ok B →
+      (PSt.writes wr cfg (PSt.init wr cfg.pieces w0 hbytes).2 ws).1 = ws.map (fun p => (p.length, none)) ∧
+      ((PSt.writes wr cfg (PSt.init wr cfg.pieces w0 hbytes).2 ws).2.close wr cfg).1 = none) ∧
+    (((PSt.writes wr cfg (PSt.init wr cfg.pieces w0 hbytes).2 ws).2.close wr cfg).1 = none →
+      ∃ B, planBytes cfg.pkt (Encrypt.chunkPlan v cfg.bs ws.flatten) 0 = .ok B) ∧
+    good ((PSt.writes wr cfg (PSt.init wr cfg.pieces w0 hbytes).2 ws).2.close wr cfg).2.codec.w := by
+  obtain ⟨h1, h2, h3⟩ := run_good wr obs good hw hg cfg hp hb hif v hv w0 hw0 hbytes ws
+  refine ⟨h1, h2, h3, ?_, close_keeps_good wr good hg cfg _
+    (writes_keep_good wr good hg cfg ws _ (init_keeps_good wr good hg cfg.pieces w0 hbytes hw0))⟩
+  intro hc
+  obtain ⟨_, ha⟩ := good_init wr obs good hw hg cfg hp v w0 hw0 hbytes
+  rcases good_writes wr obs good hw hg cfg hp hb hif v _ ws [] _ ha with ⟨_, ha'⟩ | ⟨_, hs⟩
+  · rw [List.nil_append] at ha'
+    rcases good_close wr obs good hw hg cfg hp hb v hv _ _ _ ha' with ⟨_, B, hB, _⟩ | ⟨hne, _, _⟩
+    · exact ⟨B, hB⟩
+    · exact absurd hc hne
+  · obtain ⟨hd, _⟩ := hs
+    exact absurd hc (dead_close wr obs hw cfg hp _ hd).1
+
 /-- the detached-signature stream over a good writer: everything succeeds -/
 theorem det_good (hw : ObsWriter wr obs) (hg : GoodWriter wr good) (pieces : Bytes → List Bytes)
     (hp : ∀ b, (pieces b).flatten = b) (sigPkt : Bytes → Bytes) (w0 : ω) (hw0 : good w0) (hbytes : Bytes)
